@@ -345,7 +345,7 @@ func (w *World) Provision() error {
 		return err
 	}
 	w.V = v
-	if w.Hooks != nil && v.VerifCRLChecker() != nil {
+	if w.Hooks != nil && v.VerifCRLChecker() != nil && v.VerifCRLChecker().VerifRepository() != nil {
 		// the ticker goroutine runs one (possibly skipped) pass immediately
 		w.Hooks.WaitCount("crl.update.exit", exits+1, 20*time.Second)
 	}
